@@ -377,7 +377,7 @@ func init() {
 		// "accepted, so it is stored and found" is judged after the plan's final flush and clock advances
 		Pinned: func(op *plan.Op) bool { return op.Kind == "flush" || op.Kind == "advance" },
 		Level: "exploration",
-		Rule: "each case moves the fake clock to a seeded instant and delivers 4-13 logical events (string fields, a number, a message; with a carried time in one of the accepted units, or none) through the real HTTP routes of Elasticsearch bulk (also Jaeger span documents into a jaeger-* index, time in startTimeMillis), Elasticsearch single-document, Splunk HEC and Loki push (JSON), with think times, under the seeded scheduler; then the clock jumps 3-4 min before the flush and 2-3 min before the query (hours instead of minutes in one thorough run in twenty). Oracle: every accepted event is stored once with its fields and message under the protocol's documented mapping; stored time == carried time; == the simulated arrival instant iff none was carried. distinct = distinct (protocol, unit, carried) sequences; non-trivial = the run contains events with and without a carried time",
+		Rule: "each case moves the fake clock to a seeded instant and delivers 4-13 logical events (string fields, a number, a message; with a carried time in one of the accepted units, or none) through the real HTTP routes of Elasticsearch bulk (also Jaeger span documents into a jaeger-* index, time in startTimeMillis), Elasticsearch single-document, Splunk HEC, Loki push (JSON) and OTLP logs (protobuf export requests with 1-3 resource groups that have their own resource and scope attributes, one or several scope entries, severity, trace and span ids, time_unix_nano with a sub-millisecond part and a different observed time, or no time), half of the events with nested objects / array elements / attributes whose leaf keys look special (timestamp, time, _index, time_unix_nano), with think times, under the seeded scheduler; then the clock jumps 3-4 min before the flush and 2-3 min before the query (hours instead of minutes in one thorough run in twenty). Oracle: every accepted event is stored once with its fields, nested fields, attributes of its own resource group and scope, ids and message under the protocol's documented mapping; stored time == carried time; == the simulated arrival instant iff none was carried. distinct = distinct (protocol, unit, carried) sequences; non-trivial = the run contains events with and without a carried time",
 		Run: func(c *Ctx) {
 			n := 80
 			if !c.Quick() {
@@ -401,7 +401,7 @@ func init() {
 		},
 		Oracle: func(res *RunResult) []Violation { return protoOracle("C16", res) },
 		Assumptions: []string{
-			"driven protocols: Elasticsearch bulk and single-document, Splunk HEC, Loki push (JSON). OTLP (protobuf), Prometheus remote write and OpenTSDB are not driven by this check (OpenTSDB values/timestamps are covered by C08)",
+			"driven protocols: Elasticsearch bulk and single-document, Splunk HEC, Loki push (JSON), OTLP logs (protobuf; OTLP traces are driven by C12). OTLP metrics, Prometheus remote write and OpenTSDB are not driven by this check (OpenTSDB values/timestamps are covered by C08)",
 			"the attribute-mapping half is input generation; the simulator's contribution is the controlled clock (exact arrival-instant equality, clock jumps between receipt, flush and query)",
 		},
 		Components: stdComponents,
